@@ -771,6 +771,13 @@ class KEval:
                         self._allocs[nm] = v
                 env[t.id] = v
                 if guards or loops:
+                    prev = Poly.sym(t.id + "~")
+                    if loops and isinstance(v, Poly) and any(a == ("s", t.id + "~") for a in v.atoms()):
+                        d_ = v - prev
+                        if not any(a == ("s", t.id + "~") for a in d_.all_atoms()):
+                            # x = <x of the previous iteration> + e, however it was spelled (x = x + e; y = x + e ... x = y): the counter update x += e
+                            S.assigns.append((t.id, d_, "+=", guards + path, loops, node))
+                            return
                     S.assigns.append((t.id, v, op, guards + path, loops, node))
             else:
                 cur = env.get(t.id, TOP)
